@@ -30,6 +30,7 @@ import (
 	"sort"
 	"strconv"
 	"strings"
+	"time"
 
 	"seehuhn.de/go/pdf"
 	"seehuhn.de/go/pdf/internal/debug/memfile"
@@ -62,7 +63,14 @@ type kind[K cmp.Ordered] struct {
 	fromFile func(pdf.Getter, pdf.Object) (tree[K], error)
 	inMemory func(pdf.Getter, pdf.Object) (tree[K], error)
 	size     func(pdf.Getter, pdf.Object) (int, error)
+	newMem   func(map[K]pdf.Object) memTree[K] // an in-memory tree over the caller's map
 	notFound error
+}
+
+// memTree is the in-memory tree as the API exposes it: a mutable value.
+type memTree[K cmp.Ordered] interface {
+	tree[K]
+	pdf.Embedder
 }
 
 var nameKind = &kind[pdf.Name]{
@@ -92,6 +100,7 @@ var nameKind = &kind[pdf.Name]{
 		return t, err
 	},
 	size:     nametree.Size,
+	newMem:   func(m map[pdf.Name]pdf.Object) memTree[pdf.Name] { return &nametree.InMemory{Data: m} },
 	notFound: nametree.ErrKeyNotFound,
 }
 
@@ -121,6 +130,7 @@ var numKind = &kind[pdf.Integer]{
 		return t, err
 	},
 	size:     numtree.Size,
+	newMem:   func(m map[pdf.Integer]pdf.Object) memTree[pdf.Integer] { return &numtree.InMemory{Data: m} },
 	notFound: numtree.ErrKeyNotFound,
 }
 
@@ -468,6 +478,8 @@ type runner[K cmp.Ordered] struct {
 	kd   *kind[K]
 	id   *int
 	ncfg int
+
+	unbounded bool
 }
 
 func (t *runner[K]) nextCfg() wcfg {
@@ -1127,6 +1139,343 @@ func (t *runner[K]) testRaw(root *tnode[K], probes []K, class string) {
 	e.Line("impl.obs", "%s raw size=%d valid=%d enum=%d look=%s mem=%d memlook=%s", id, o.size, valid, o.enum, o.look, o.mem, o.memlok)
 }
 
+// ------------------------------------------------- graphs: shared, cyclic, dangling kids
+
+// gn is a node object of a hand-built file; kids are indices into the node list
+// (an index beyond the list is a reference to an object that does not exist).
+type gn[K cmp.Ordered] struct {
+	missing bool // the object is never written
+	nondict bool // the object is an integer
+	leaf    bool
+	lim     *[2]K
+	keys    []K
+	vals    []int64
+	kids    []int
+}
+
+func flatten[K cmp.Ordered](root *tnode[K]) []gn[K] {
+	var nodes []gn[K]
+	var rec func(n *tnode[K]) int
+	rec = func(n *tnode[K]) int {
+		i := len(nodes)
+		nodes = append(nodes, gn[K]{leaf: n.leaf, lim: n.lim, keys: n.keys, vals: n.vals})
+		for _, c := range n.kids {
+			j := rec(c)
+			nodes[i].kids = append(nodes[i].kids, j)
+		}
+		return i
+	}
+	rec(root)
+	return nodes
+}
+
+func (t *runner[K]) testGraph(nodes []gn[K], root int, probes []K, class string) {
+	e, kd := t.e, t.kd
+	if t.unbounded {
+		return // a reader is still spinning in the background: one failing input is enough
+	}
+	w, snk := newWriterCfg(t.nextCfg())
+	maxIdx := len(nodes)
+	for _, n := range nodes {
+		for _, k := range n.kids {
+			maxIdx = max(maxIdx, k+1)
+		}
+	}
+	refs := make([]pdf.Reference, maxIdx)
+	for i := range refs {
+		refs[i] = w.Alloc()
+	}
+	var sb strings.Builder
+	fmt.Fprintf(&sb, "%d ", len(nodes))
+	limWire := func(l *[2]K) string {
+		if l == nil {
+			return "n"
+		}
+		return "l " + kd.tok(l[0]) + " " + kd.tok(l[1])
+	}
+	for i, n := range nodes {
+		switch {
+		case n.missing:
+			sb.WriteString("X ")
+			continue
+		case n.nondict:
+			sb.WriteString("X ")
+			if err := w.Put(refs[i], pdf.Integer(7)); err != nil {
+				panic(err)
+			}
+			continue
+		}
+		d := pdf.Dict{}
+		if n.lim != nil {
+			d["Limits"] = pdf.Array{kd.enc(n.lim[0]), kd.enc(n.lim[1])}
+		}
+		if n.leaf {
+			arr := pdf.Array{}
+			fmt.Fprintf(&sb, "L %s %d ", limWire(n.lim), len(n.keys))
+			for j, k := range n.keys {
+				arr = append(arr, kd.enc(k), pdf.Integer(n.vals[j]))
+				fmt.Fprintf(&sb, "%s %d ", kd.tok(k), n.vals[j])
+			}
+			d[kd.leafKey] = arr
+		} else {
+			arr := pdf.Array{}
+			fmt.Fprintf(&sb, "I %s %d ", limWire(n.lim), len(n.kids))
+			for _, k := range n.kids {
+				arr = append(arr, refs[k])
+				fmt.Fprintf(&sb, "%d ", k)
+			}
+			d["Kids"] = arr
+		}
+		if err := w.Put(refs[i], d); err != nil {
+			panic(err)
+		}
+	}
+	r := closeAndReopen(w, snk)
+	id := t.nextID()
+	e.Line("cases.txt", "%s G %s %s%d %s", id, kd.tag, sb.String(), root, t.keysWire(probes))
+	e.Count(true, kd.tag+sb.String(), class)
+	e.Dist[class]++
+
+	type obs struct {
+		size         int
+		enum, mem    uint64
+		look, memlok string
+		perr         string
+	}
+	done := make(chan obs, 1)
+	go func() {
+		o, perr := safe(func() obs {
+			size, enum, look, mem, memlook, _, _ := t.observe(r, pdf.Object(refs[root]), probes, true)
+			return obs{size: size, enum: enum, mem: mem, look: look, memlok: memlook}
+		})
+		o.perr = perr
+		done <- o
+	}()
+	cs := map[string]any{"kind": kd.tag, "graph": short(sb.String()), "root": root}
+	select {
+	case o := <-done:
+		if o.perr != "" {
+			e.Fail("reader-panic", "a tree reader panics on a graph of node objects: "+o.perr, cs)
+			e.Line("impl.obs", "%s panic", id)
+			return
+		}
+		e.Line("impl.obs", "%s graph size=%d enum=%d look=%s mem=%d memlook=%s bounded=1", id, o.size, o.enum, o.look, o.mem, o.memlok)
+	case <-time.After(20 * time.Second):
+		e.Fail("reader-unbounded-work", "a tree reader does not finish on a small graph with shared or cyclic kids (work exponential in the number of levels, or a loop)", cs)
+		e.Line("impl.obs", "%s timeout", id)
+		t.unbounded = true
+	}
+}
+
+func (t *runner[K]) graphs(set func(*runner[K], int, int) []K, probes func(*runner[K], []K, int, int) []K) {
+	e := t.e
+	R := e.Rand
+	for i := 0; i < e.Pick(150, 4000); i++ {
+		n := 1 + R.IntN(60)
+		ks := set(t, n, R.IntN(3))
+		vals := make([]int64, len(ks))
+		for j := range vals {
+			vals[j] = int64(j)
+		}
+		nodes := flatten(build(ks, vals, []int{2, 3, 5}[R.IntN(3)]))
+		class := "graph:tree"
+		for m := R.IntN(4); m > 0 && len(nodes) > 1; m-- {
+			class = "graph:mutated"
+			var inner []int
+			for j, nd := range nodes {
+				if !nd.leaf && !nd.missing && !nd.nondict && len(nd.kids) > 0 {
+					inner = append(inner, j)
+				}
+			}
+			if len(inner) == 0 {
+				break
+			}
+			x := inner[R.IntN(len(inner))]
+			nd := &nodes[x]
+			switch R.IntN(7) {
+			case 0: // a kid listed twice
+				if len(nd.kids) > 0 {
+					nd.kids = append(nd.kids, nd.kids[R.IntN(len(nd.kids))])
+				}
+			case 1: // share a node of another part of the tree
+				nd.kids[R.IntN(len(nd.kids))] = R.IntN(len(nodes))
+			case 2: // cycle: back to the root or to the node itself
+				nd.kids = append(nd.kids, []int{0, x}[R.IntN(2)])
+			case 3: // reference to an object that does not exist
+				nd.kids[R.IntN(len(nd.kids))] = len(nodes) + R.IntN(3)
+			case 4: // a kid that is not a dictionary / was never written
+				j := 1 + R.IntN(len(nodes)-1)
+				if R.IntN(2) == 0 {
+					nodes[j] = gn[K]{nondict: true}
+				} else {
+					nodes[j] = gn[K]{missing: true}
+				}
+			case 5: // the first kid again at the end (a lookup may come back to it)
+				nd.kids = append(nd.kids, nd.kids[0])
+			default: // cross link between two inner nodes
+				y := inner[R.IntN(len(inner))]
+				nd.kids = append([]int{y}, nd.kids...)
+			}
+		}
+		t.testGraph(nodes, 0, probes(t, ks, 12, 8), class)
+	}
+	// chains of diamonds: every node lists the next one twice (2^levels paths)
+	ks := set(t, 3, 1)
+	for _, levels := range []int{5, 30, 60, 120, 250, 300} {
+		var nodes []gn[K]
+		for i := 0; i < levels; i++ {
+			nodes = append(nodes, gn[K]{lim: &[2]K{ks[0], ks[2]}, kids: []int{i + 1, i + 1}})
+		}
+		nodes[0].lim = nil
+		nodes = append(nodes, gn[K]{leaf: true, lim: &[2]K{ks[0], ks[2]}, keys: ks, vals: []int64{0, 1, 2}})
+		t.testGraph(nodes, 0, probes(t, ks, 3, 2), "graph:diamonds")
+		// the same with two distinct next nodes that both point on: a ladder
+		var lad []gn[K]
+		for i := 0; i < levels && i < 100; i++ {
+			lad = append(lad, gn[K]{lim: &[2]K{ks[0], ks[2]}, kids: []int{2*i + 2, 2*i + 2}}, gn[K]{lim: &[2]K{ks[0], ks[2]}, kids: []int{2*i + 2, 2*i + 3}})
+		}
+		lad = append(lad, gn[K]{leaf: true, lim: &[2]K{ks[0], ks[2]}, keys: ks, vals: []int64{0, 1, 2}})
+		lad = append(lad, gn[K]{leaf: true, lim: &[2]K{ks[0], ks[2]}, keys: ks, vals: []int64{0, 1, 2}})
+		lad[0].lim = nil
+		t.testGraph(lad, 0, probes(t, ks, 3, 2), "graph:ladder")
+	}
+}
+
+// ------------------------------------------------- histories on one in-memory tree
+
+// history: one InMemory value over a map the caller keeps changing; after every
+// step All() must be the sorted map and a tree written from it must answer as
+// the map says.
+func (t *runner[K]) history(set func(*runner[K], int, int) []K, probes func(*runner[K], []K, int, int) []K) {
+	e, kd := t.e, t.kd
+	R := e.Rand
+	n := R.IntN(140)
+	data := map[K]pdf.Object{}
+	for _, k := range set(t, n, R.IntN(3)) {
+		data[k] = pdf.Integer(0)
+	}
+	pool := set(t, n+40, R.IntN(3)) // keys to add later
+	mem := kd.newMem(data)
+	var trace []string
+	sortedKeys := func() []K {
+		ks := make([]K, 0, len(data))
+		for k := range data {
+			ks = append(ks, k)
+		}
+		slices.Sort(ks)
+		return ks
+	}
+	renumber := func() []K { // update-value on every entry: value = rank of the key
+		ks := sortedKeys()
+		for i, k := range ks {
+			data[k] = pdf.Integer(i)
+		}
+		return ks
+	}
+	fail := func(sig, what string) {
+		e.Fail(sig, what, map[string]any{"kind": kd.tag, "history": strings.Join(trace, " "), "entries": len(data)})
+	}
+	checkAll := func() bool {
+		ks := renumber()
+		i := 0
+		ok := true
+		for k, v := range mem.All() {
+			if i >= len(ks) || k != ks[i] || v != pdf.Integer(i) {
+				ok = false
+			}
+			i++
+		}
+		if !ok || i != len(ks) {
+			fail("inmemory-history", "InMemory.All is not the sorted content of Data after the map was changed")
+			return false
+		}
+		return true
+	}
+	steps := 4 + R.IntN(8)
+	for s := 0; s < steps; s++ {
+		e.Count(true, kd.tag+"history"+strconv.Itoa(*t.id)+"/"+strconv.Itoa(s), "inmemory-history-step")
+		switch op := R.IntN(8); op {
+		case 0:
+			trace = append(trace, "enumerate")
+			if !checkAll() {
+				return
+			}
+		case 1:
+			trace = append(trace, "lookup")
+			ks := renumber()
+			for _, p := range probes(t, ks, 6, 6) {
+				v, err := mem.Lookup(p)
+				want, present := data[p]
+				if present != (err == nil) || present && v != want {
+					fail("inmemory-history", "InMemory.Lookup disagrees with Data")
+					return
+				}
+			}
+		case 2:
+			trace = append(trace, "delete")
+			for k := range data {
+				delete(data, k)
+				break
+			}
+		case 3:
+			trace = append(trace, "add")
+			data[pool[R.IntN(len(pool))]] = pdf.Integer(0)
+		case 4, 5:
+			trace = append(trace, "replace-key")
+			if len(data) > 0 {
+				ks := sortedKeys()
+				for try := 0; try < 20; try++ {
+					nk := pool[R.IntN(len(pool))]
+					if _, present := data[nk]; !present {
+						delete(data, ks[R.IntN(len(ks))])
+						data[nk] = pdf.Integer(0)
+						break
+					}
+				}
+			}
+		default:
+			how := []string{"write", "embed"}[R.IntN(2)]
+			trace = append(trace, how)
+			ks := renumber()
+			cfg := t.nextCfg()
+			cfg.openStream, cfg.second = false, false
+			w, snk := newWriterCfg(cfg)
+			var ref pdf.Reference
+			var err error
+			if how == "write" {
+				ref, err = kd.write(w, mem.All())
+			} else {
+				var obj pdf.Native
+				obj, err = pdf.NewResourceManager(w).Embed(mem)
+				ref, _ = obj.(pdf.Reference)
+			}
+			if err != nil {
+				fail("inmemory-history", "writing the in-memory tree fails: "+err.Error())
+				return
+			}
+			if len(ks) == 0 {
+				if ref != 0 {
+					fail("empty-tree", "an empty in-memory tree yields a tree object")
+				}
+				continue
+			}
+			if ref == 0 {
+				fail("no-root", "a non-empty in-memory tree yields the null reference")
+				return
+			}
+			r := closeAndReopen(w, snk)
+			id := t.nextID()
+			ps := probes(t, ks, 20, 12)
+			e.Line("cases.txt", "%s W %s %s %s", id, kd.tag, t.keysWire(ks), t.keysWire(ps))
+			t.verify(id, r, ref, ks, ps, map[string]any{"kind": kd.tag, "history": strings.Join(trace, " "), "config": cfg.String()}, "inmemory-history")
+		}
+		// the map has changed: the enumeration must follow (this is also what Write/Embed consume)
+		if !checkAll() {
+			return
+		}
+	}
+}
+
 // ------------------------------------------------------------------- main
 
 func runKind[K cmp.Ordered](e *common.Env, kd *kind[K], id *int,
@@ -1208,6 +1557,12 @@ func runKind[K cmp.Ordered](e *common.Env, kd *kind[K], id *int,
 		n.lim = nil
 		t.testRaw(n, probes(t, ks, 3, 2), "deep-chain")
 	}
+	// files whose node objects form a graph
+	t.graphs(set, probes)
+	// one in-memory tree, used and changed in turn
+	for i := 0; i < e.Pick(60, 2000); i++ {
+		t.history(set, probes)
+	}
 }
 
 func main() {
@@ -1218,6 +1573,6 @@ func main() {
 	e.Finish("key sets: every size 0..200 (thorough 0..600), sizes at the boundaries of 64, 63*64 and 64*64 up to 6000 (thorough 20000), random sizes; "+
 		"names over arbitrary bytes (empty name, prefixes and 00/FF extensions of each other, all strings over {00,FF}, key%04d), integers incl. int64 extremes, dense and sparse; "+
 		"probes: present keys (all for small sets), below the minimum, above the maximum, immediate successors, prefixes, random; "+
-		"written with the real Write/WriteMap in eight writer configurations (PDF 1.4/1.7/2.0, HumanReadable, seekable or not, while a stream is open on the same Writer so that Put defers the node objects, a second tree written from inside the iterator of the first), file reopened; unsorted/duplicate key sequences; hand-built valid and mutated trees for the readers; "+
+		"written with the real Write/WriteMap in eight writer configurations (PDF 1.4/1.7/2.0, HumanReadable, seekable or not, while a stream is open on the same Writer so that Put defers the node objects, a second tree written from inside the iterator of the first), file reopened; unsorted/duplicate key sequences; hand-built valid and mutated trees for the readers; histories on one InMemory value (enumerate / Lookup / Write / Embed interleaved with add, delete, replace-key-same-count and update-value on its Data map); graphs of node objects (kids shared, listed twice, cyclic, dangling, not dictionaries; chains of diamonds and ladders of up to 300 levels) read under a watchdog; "+
 		"non-trivial = more than one key (W cases) or any hand-built tree, distinct by key set / tree", nil)
 }
